@@ -652,7 +652,10 @@ public:
      */
     ~ConnectionBlocker()
     {
-        m_handle.block(m_wasBlocked);
+        // The connection may have been disconnected (or its signal destructed) in the meantime,
+        // in which case there is nothing to restore and block() would throw.
+        if (m_handle.isActive())
+            m_handle.block(m_wasBlocked);
     }
 
 private:
